@@ -113,6 +113,7 @@ func main() {
 				st.Truncated = fmt.Sprintf("%d of %d cases generated within the time budget of %.0f s", k, n, share)
 				break
 			}
+			g.CaseNo = k
 			cs := su.Gen(g, *tier)
 			cs.Machine = m.ID()
 			ck.Check(cs, su.Nontrivial)
